@@ -23,12 +23,13 @@ import (
 
 // TCPCase is one connection.
 type TCPCase struct {
-	Opening string `json:"opening"` // first bytes of the stream
-	N       int    `json:"n"`       // further bytes
-	Chunks  []int  `json:"chunks"`  // client write sizes, cycled
-	Pause   bool   `json:"pause"`   // the client pauses between chunks (separate TCP segments)
-	Reads   []int  `json:"reads"`   // server-side read sizes, cycled
-	Echo    []int  `json:"echo"`    // sizes of the writes of the server side
+	Opening string `json:"opening"`         // first bytes of the stream
+	N       int    `json:"n"`               // further bytes
+	Chunks  []int  `json:"chunks"`          // client write sizes, cycled
+	Pause   bool   `json:"pause"`           // the client pauses between chunks (separate TCP segments)
+	Reads   []int  `json:"reads"`           // server-side read sizes, cycled
+	Echo    []int  `json:"echo"`            // sizes of the writes of the server side
+	Stall   int    `json:"stall,omitempty"` // >0: the client sends only this many bytes, stalls until the connection has been handed over (the listener's short sniffing deadline passes), then sends the rest
 }
 
 var openings = []string{"GET / HTTP/1.1\r\nHost: x\r\n\r\n", "POST /keygen HTTP/1.1\r\n\r\n", "GE", "G", "\x10\x10\x00\x04MQTT\x04\x02\x00\x3c\x00\x04abcd", "\x10", "PUT", "GETT", "HEAD / HTTP/1.0\r\n\r\n", "", "get / http/1.1\r\n", "OPTIONS * HTTP/1.1\r\n\r\n", "\xc0\x00"}
@@ -37,7 +38,8 @@ func genTCP(t *rapid.T) TCPCase {
 	return TCPCase{Opening: rapid.SampledFrom(openings).Draw(t, "opening"), N: rapid.SampledFrom([]int{0, 1, 3, 8, 100, 5000, 70000}).Draw(t, "n"),
 		Chunks: rapid.SliceOfN(rapid.SampledFrom([]int{1, 2, 3, 7, 100, 65536}), 1, 4).Draw(t, "chunks"), Pause: rapid.Bool().Draw(t, "pause"),
 		Reads: rapid.SliceOfN(rapid.SampledFrom([]int{1, 2, 5, 64, 4096}), 1, 3).Draw(t, "reads"),
-		Echo:  rapid.SliceOfN(rapid.SampledFrom([]int{1, 10, 300, 20000}), 0, 5).Draw(t, "echo")}
+		Echo:  rapid.SliceOfN(rapid.SampledFrom([]int{1, 10, 300, 20000}), 0, 5).Draw(t, "echo"),
+		Stall: rapid.SampledFrom([]int{0, 0, 0, 1, 3, 7, 12}).Draw(t, "stall")}
 }
 
 type accepted struct {
@@ -46,18 +48,19 @@ type accepted struct {
 }
 
 var (
-	tcpOnce sync.Once
-	tcpAddr string
-	tcpIn   = make(chan accepted, 64)
+	tcpOnce  [2]sync.Once
+	tcpAddrs [2]string
+	tcpIn    = make(chan accepted, 64)
 )
 
-func tcpListener() string {
-	tcpOnce.Do(func() {
+// tcpListener: 0 = the broker's configuration (120 s sniffing deadline), 1 = a short sniffing deadline (250 ms)
+func tcpListener(short int) string {
+	tcpOnce[short].Do(func() {
 		l, err := listener.New("127.0.0.1:0", listener.Config{FlushRate: 60})
 		if err != nil {
 			panic(err)
 		}
-		l.SetReadTimeout(120 * time.Second)
+		l.SetReadTimeout([]time.Duration{120 * time.Second, 250 * time.Millisecond}[short])
 		serve := func(kind string) func(net.Listener) error {
 			return func(sub net.Listener) error {
 				for {
@@ -72,17 +75,26 @@ func tcpListener() string {
 		l.ServeAsync(listener.MatchHTTP(), serve("http"))
 		l.ServeAsync(listener.MatchAny(), serve("any"))
 		go l.Serve()
-		tcpAddr = l.Addr().String()
+		tcpAddrs[short] = l.Addr().String()
 	})
-	return tcpAddr
+	return tcpAddrs[short]
 }
 
 func runTCP(c TCPCase) vkit.Result {
-	addr := tcpListener()
 	data := append([]byte(c.Opening), stream("", c.N)...)
 	if len(data) == 0 {
 		data = []byte{0}
 	}
+	stall := c.Stall
+	if stall >= len(data) {
+		stall = 0
+	}
+	short := 0
+	if stall > 0 {
+		short = 1
+	}
+	addr := tcpListener(short)
+	handedOver := make(chan struct{})
 	for drained := false; !drained; { // connections an earlier (failed) case left behind
 		select {
 		case old := <-tcpIn:
@@ -97,7 +109,14 @@ func runTCP(c TCPCase) vkit.Result {
 	}
 	defer cl.Close()
 	go func() {
-		for off, i := 0, 0; off < len(data); i++ {
+		if stall > 0 {
+			cl.Write(data[:stall])
+			select {
+			case <-handedOver:
+			case <-time.After(vkit.WaitCeiling):
+			}
+		}
+		for off, i := stall, 0; off < len(data); i++ {
 			n := c.Chunks[i%len(c.Chunks)]
 			if off+n > len(data) {
 				n = len(data) - off
@@ -118,8 +137,12 @@ func runTCP(c TCPCase) vkit.Result {
 		return vkit.Failf("a connection whose stream begins %q (%d bytes) was not handed to any sub-listener", c.Opening, len(data))
 	}
 	defer a.c.Close()
+	close(handedOver)
 	// which sub-listener takes the connection is the matchers' business (not part of the property); it is recorded as a label
 	labels := []string{"tcp-" + a.kind}
+	if stall > 0 {
+		labels = append(labels, "stalled-past-the-sniffing-deadline")
+	}
 	got := make([]byte, 0, len(data))
 	a.c.SetReadDeadline(time.Now().Add(vkit.WaitCeiling))
 	for i := 0; len(got) < len(data); i++ {
